@@ -31,7 +31,8 @@ theorem validateDomains_mem (target : MG Name) : ∀ (ds : List Domain), validat
 /-- the checks of one domain that Algorithm 4 relies on: the order lists the nodes of the selection diagram, and every
 regular node is a variable of the population's distribution -/
 theorem validateDomain_facts (target : MG Name) (d : Domain) (h : validateDomain target d = .ok ()) :
-    seteq' d.topo d.graph.nodes = true ∧ (regular d.graph).all (· ∈ exprVarNames d.pop) = true := by
+    seteq' d.topo d.graph.nodes = true ∧
+      (regular d.graph).all (fun n => Ctf.mem' (Var.plain n) (exprVars d.pop)) = true := by
   unfold validateDomain vErr at h
   split at h
   · cases h
@@ -42,8 +43,9 @@ theorem validateDomain_facts (target : MG Name) (d : Domain) (h : validateDomain
       exact ⟨by simpa using h1, by simpa using h2⟩
 
 /-- a population expression that mentions a variable is a `Probability` -/
-theorem isProb_of_exprVarNames (q : Expr) (v : Name) (h : v ∈ exprVarNames q) : Tian.isProb q = true := by
-  cases q <;> simp_all [exprVarNames, Tian.isProb]
+theorem isProb_of_exprVarNames (q : Expr) (v : Name) (h : Ctf.mem' (Var.plain v) (exprVars q) = true) :
+    Tian.isProb q = true := by
+  cases q <;> simp_all [exprVars, Tian.isProb, Ctf.mem']
 
 theorem ite_error_ok {c : Prop} [Decidable c] {err : Err} {y : Except Err Unit} {u : Unit}
     (h : (if c then .error err else y) = .ok u) : ¬ c ∧ y = .ok u := by
@@ -111,7 +113,7 @@ theorem domainOK_of_accepted (target : MG Name) (d : Domain) (hwf : d.graph.WF)
   refine ⟨hwf, fun v hv => (hseq' v).1 (hsub v hv), TianGraph.seteq'_iff.1 htopo, ?_, hbiT, ?_⟩
   · obtain ⟨v, hv⟩ := List.exists_mem_of_ne_nil _ hne
     have hvr : v ∈ regular d.graph := (hseq' v).1 hv
-    simp only [List.all_eq_true, decide_eq_true_eq] at hpop
+    simp only [List.all_eq_true] at hpop
     exact isProb_of_exprVarNames d.pop v (hpop v hvr)
   · have hpol : ∀ v ∈ district, v ∉ d.policy := by
       simp only [domainUsable, Bool.and_eq_true, List.all_eq_true, decide_eq_true_eq] at hus
